@@ -61,7 +61,7 @@ theorem balances_follow_log (ch : Chain) (hch : ChainOk ch) (w : World) (m : Msg
     denomination; a refund from a realm's deposit address whose storage delta is negative. -/
 theorem debits_are_authorised (ch : Chain) (hch : ChainOk ch) (w : World) (m : Msg) (o : Outcome)
     (h : step ch w m = .ok o) (e : Ev) (he : e ∈ o.log) (hneg : e.amt < 0) :
-    Authorised (ch.env m.send) ch.persisted m.signer o.diffs o.toks o.bankers e := by
+    Authorised (ch.envFor w m.send) ch.persisted m.signer o.diffs o.toks o.bankers e := by
   cases m with
   | call s r c md p => exact (step_call_facts ch hch w s r c md p o h).auth e he hneg
   | run s c md p => exact (step_run_facts ch hch w s c md p o h).auth e he hneg
@@ -74,7 +74,7 @@ theorem debits_are_authorised (ch : Chain) (hch : ChainOk ch) (w : World) (m : M
 theorem coins_leave_only_with_authority (ch : Chain) (hch : ChainOk ch) (w : World) (m : Msg) (o : Outcome)
     (h : step ch w m = .ok o) (a : Addr) (d : Str) (hdec : o.world.led.bal a d < w.led.bal a d) :
     ∃ e ∈ o.log, e.addr = a ∧ e.denom = d ∧ e.amt < 0 ∧
-      Authorised (ch.env m.send) ch.persisted m.signer o.diffs o.toks o.bankers e := by
+      Authorised (ch.envFor w m.send) ch.persisted m.signer o.diffs o.toks o.bankers e := by
   have hb := balances_follow_log ch hch w m o h a d
   obtain ⟨e, he, h1, h2, h3⟩ := logSum_neg_has_debit o.log a d (by omega)
   exact ⟨e, he, h1, h2, h3, debits_are_authorised ch hch w m o h e he h3⟩
@@ -224,7 +224,7 @@ example : issuable (S!"gno.land/r/a") (S!"ugnot") = false := by decide
 theorem supply_changes_only_by_issuer (ch : Chain) (hch : ChainOk ch) (w : World) (m : Msg) (o : Outcome)
     (h : step ch w m = .ok o) (d : Str) (hd : o.world.led.supply d ≠ w.led.supply d) :
     ∃ (bid : Nat) (bi : BankerInfo), o.bankers[bid]? = some bi ∧ bi.bt = 3 ∧ issuable bi.path d = true ∧
-      BankerProv (ch.env m.send) ch.persisted o.toks bid bi := by
+      BankerProv (ch.envFor w m.send) ch.persisted o.toks bid bi := by
   cases m with
   | call s r c md p => exact (step_call_facts ch hch w s r c md p o h).supply d hd
   | run s c md p => exact (step_run_facts ch hch w s c md p o h).supply d hd
